@@ -92,7 +92,7 @@ SelFold(cs, idx, n, req) ==
 ResetRuntime(K) ==
   IF BugR = "runtime_state_kept" THEN K
   ELSE [K EXCEPT !.scroll = <<>>, !.hscroll = <<>>, !.um = <<>>, !.umm = 0, !.us = <<>>, !.lpk = 0,
-                 !.sq = Old!InitSq, !.wfi = {}, !.vpr = <<>>, !.dyn.rep = <<>>, !.dyn.rec = <<>>]
+                 !.sq = Old!InitSq, !.wfi = {}, !.vpr = <<>>, !.dyn.rep = <<>>, !.dyn.rec = <<>>, !.cw = <<>>]
 DoLiveReload(S, kind) ==
   LET c == CfgOfKind[kind] IN
   IF c = "" THEN [S |-> S, msgs |-> <<>>, repl |-> FALSE]                \* 599-605: bail before any assignment
